@@ -418,6 +418,25 @@ func randModelFont(r *rng) *modelFont {
 		}
 		if bc >= 0 && ac >= 0 {
 			f.glyphs["eacute"] = &mGlyph{sbx: r.rangeInt(0, 80), wx: f.glyphs["e"].wx, seac: &[4]int{r.rangeInt(-50, 200), r.rangeInt(-50, 300), bc, ac}}
+			// several composites on one base (and on one accent) must not influence each other
+			gc := -1
+			for i := 0; i < 256; i++ {
+				n := ""
+				if f.stdEnc {
+					n = psenc.StandardEncoding[i]
+				} else {
+					n = f.encoding[i]
+				}
+				if n == "grave" {
+					gc = i
+				}
+			}
+			if gc >= 0 && f.glyphs["grave"] != nil {
+				f.glyphs["egrave"] = &mGlyph{sbx: r.rangeInt(0, 80), wx: f.glyphs["e"].wx, seac: &[4]int{r.rangeInt(-50, 200), r.rangeInt(-50, 300), bc, gc}}
+			}
+			if r.chance(1, 2) {
+				f.glyphs["e.alt"] = &mGlyph{sbx: r.rangeInt(0, 80), wx: f.glyphs["e"].wx, seac: &[4]int{r.rangeInt(-50, 200), r.rangeInt(-50, 300), bc, ac}}
+			}
 		}
 	}
 	if r.chance(1, 2) {
@@ -478,7 +497,11 @@ func (mf *modelFont) renderParts(r *rng) (*renderFont, renderLayout) {
 	for _, k := range keys {
 		rf.Info = append(rf.Info, [2]string{k, psStringLit(mf.info[k])})
 	}
-	rf.Info = append(rf.Info, [2]string{"ItalicAngle", fmt.Sprint(mf.italic)}, [2]string{"isFixedPitch", fmt.Sprint(mf.fixed)},
+	italic := fmt.Sprint(mf.italic)
+	if mf.italic == math.Trunc(mf.italic) && r.chance(1, 2) {
+		italic = fmt.Sprintf("%.1f", mf.italic) // a whole number spelled as a real
+	}
+	rf.Info = append(rf.Info, [2]string{"ItalicAngle", italic}, [2]string{"isFixedPitch", fmt.Sprint(mf.fixed)},
 		[2]string{"UnderlinePosition", fmt.Sprint(mf.ulPos)}, [2]string{"UnderlineThickness", fmt.Sprint(mf.ulThick)})
 	rf.FontMatrix = fmt.Sprintf("[%g 0 0 %g 0 0]", mf.matrix[0], mf.matrix[3])
 	var pk []string
